@@ -330,6 +330,7 @@ func main() {
 	writeIfChanged(filepath.Join(out, "Tables.lean"), genTables(tables))
 	writeIfChanged(filepath.Join(out, "Consts.lean"), genConsts(constOrder, constVals))
 	writeIfChanged(filepath.Join(out, "Facts.lean"), genFacts(&F))
+	writeIfChanged(filepath.Join(out, "Flows.lean"), genFlows(repo))
 	js, _ := json.MarshalIndent(&F, "", " ")
 	writeIfChanged(filepath.Join(out, "facts.json"), string(js)+"\n")
 }
